@@ -235,6 +235,7 @@ func Run(ctx *common.Ctx) {
 			ctx.Sample(d)
 		}
 	}
+	checkCalls(ctx, rng)
 	// ---- sessions -------------------------------------------------------------------------------
 	dir, err := os.MkdirTemp("", "verif-c19-")
 	if err != nil {
@@ -319,7 +320,7 @@ func Run(ctx *common.Ctx) {
 		fmt.Fprintln(os.Stderr, "sessions done", time.Since(t0))
 	}
 	ctx.Meta.DistinctNontrivial = len(distinct)
-	ctx.Meta.Rule = "placeholder"
+	ctx.Meta.Rule = "(a) values: half generated inside the guard (nested lists, dotted lists, adjustable vectors, arrays of rank 2-3, hash tables, lambdas; atoms: fixnums incl. int64 limits, bignums, ratios, floats, characters, strings with quotes/backslashes/newlines/UTF-8, keywords, type symbols), half unrestricted (also plain and odd symbols, small bignums, non-adjustable and empty vectors, rank-0 and zero-size arrays, character/list keys, list values, lambdas with doc strings); per value: LoadForm, the form evaluated, and for 5 margins in 20..120 (20, 120 and three random) plus the plain printer: pp.Append -> ReadOne -> Eval -> Equal. (b) function calls from a pool x 3 margins (judged on the implementation). (c) sessions of 3..12 definition forms (defvar, defparameter, setq, defconstant, defun with 6 lambda-list shapes and generated bodies, defmacro), half tame, half wild (symbol values, list constants, unbound variables, forward calls, wild doc strings, backquote, function quote, multi-entry hash tables): fresh process -> snapshot -> fresh process -> load form by form -> snapshot -> probes of every variable, constant, function (several argument lists), macro and doc string in both processes. (d) tame sessions that also define packages, chains of flavors, generic functions with specialised methods (judged on the implementation). distinct = distinct printed values / histories"
 	// spread the (more expensive) session cases evenly over the shards
 	terms, descs = spread(terms, descs, nvalues)
 	header := "From Coq Require Import List String ZArith NArith Bool.\nImport ListNotations.\nFrom C19 Require Import Model Spec Corr.\n"
